@@ -53,7 +53,7 @@ theorem law_0 :
     ∧ rdd2.attitude_rate_control.de1_0 kp ki kd f i_max om omr i0 e0 de0 dt
         = rdd2.attitude_rate_control.alpha kp ki kd f i_max om omr i0 e0 de0 dt * ((omr 0 - om 0 - e0 0) / dt)
           + (1 - rdd2.attitude_rate_control.alpha kp ki kd f i_max om omr i0 e0 de0 dt) * de0 0 := by
-  refine ⟨?_, ?_, ?_⟩ <;> simp only [cas_defs, cas_real]
+  refine ⟨?_, ?_, ?_⟩ <;> simp only [cas_defs, cas_real] <;> (try ring1)
 end rate
 
 /-- **invariant of the recursion**: after ANY non-empty sequence of steps, from ANY initial integrator
@@ -77,7 +77,7 @@ theorem acro_linear (trim delta : ℝ) (st : Fin 4 → ℝ) :
     ∧ rdd2.input_acro.omega_1 trim delta st = 4716158501352293 * 2 ^ (-52:ℤ) * st 1
     ∧ rdd2.input_acro.omega_2 trim delta st = 4716158501352293 * 2 ^ (-52:ℤ) * st 3
     ∧ rdd2.input_acro.thrust trim delta st = st 2 * delta + trim := by
-  refine ⟨?_, ?_, ?_, ?_⟩ <;> simp only [cas_defs, cas_real]
+  refine ⟨?_, ?_, ?_, ?_⟩ <;> simp only [cas_defs, cas_real] <;> (try ring1)
 
 /-- the rate limit constant is 60°/s (as a double: within 1e-15 of π/3) and stick inputs in [-1,1] give
     bounded rate commands -/
@@ -117,7 +117,7 @@ theorem reset_on_vehicle (h : reset ≠ 0) :
     rdd2.input_velocity.pw_sp1_0 dt psi pwsp pw st reset = pw 0
     ∧ rdd2.input_velocity.pw_sp1_1 dt psi pwsp pw st reset = pw 1
     ∧ rdd2.input_velocity.pw_sp1_2 dt psi pwsp pw st reset = pw 2 := by
-  refine ⟨?_, ?_, ?_⟩ <;> simp [cas_defs, cas_real, h]
+  refine ⟨?_, ?_, ?_⟩ <;> simp [cas_defs, cas_real, h] <;> (try ring1)
 end velocity
 
 /-! ## attitude law: zero exactly when measured and reference attitude are the same rotation (q_r = ±q) -/
